@@ -16,13 +16,98 @@ NOTE_COMMON = "Trusted: z3 5.1; the symx proxy engine and namespace shims (diffe
 
 # property -> (level text, level note, design ref)
 CLAIMS = {
+    "C01": ("From EVERY valid tree on <= N nodes (parent vector enumerated by the solver) one structural edit with "
+            "symbolic operands, then parent/child consistency, detachment and all traversal queries against a naive "
+            "walk; generationNum is an unbounded symbolic Int; deepcopy/pickle re-linking.",
+            "Mostly exhaustive enumeration of a bounded state space by the solver (stated as such); trees beyond N "
+            "nodes, raw list methods and re-adding an object that already has a parent are outside.", "3 C01"),
+    "C02": ("For all positive component volumes / block heights and all non-negative number densities (symbolic reals) "
+            "on real HexBlocks, assemblies and a mini third-core: mass and volume additivity with symmetry factor, "
+            "volume-weighted number densities, atoms agree across levels, mass = density x volume, every composition "
+            "setter reads back and leaves other nuclides alone, mass fractions sum to one and keep proportions, "
+            "densityTools conversions are mutual inverses.",
+            "<= 5 components per block, 2 blocks per assembly, 2 assemblies, <= 6 nuclides; lumped fission products and "
+            "detailed/pin density arrays outside.", "3 C02"),
+    "C03": ("For every 2-D shape class, all dimensions/multiplicities/temperatures and ANY expansion law (uninterpreted "
+            "function L(T)): mass per unit height conserved along temperature paths, area = cold area x f^2, expanding "
+            "dimensions scale by f, path independence, hot-dimension read-back, linked dimensions follow their target, "
+            "fluids keep dimensions; real library materials with symbolic temperature where the law is polynomial.",
+            "3-D shapes, negative-area void handling and non-polynomial material laws are outside.", "3 C03"),
+    "C04": ("Pure-Python kernels of the database round trip only: layout ancestry for every valid pre-order layout of "
+            "<= 6 objects with symbolic distinct serial numbers; location pack/unpack for symbolic locator kinds, "
+            "indices and coordinates; grid rebuilt from its constructor arguments (with C07).",
+            "KERNELS ONLY: HDF5 reading/writing, parameter datasets, whole-reactor equality are not encodable and "
+            "not claimed.", "3 C04"),
+    "C05": ("Flag bit remapping for every bit-field value and every injective old->new bit map (symbolic bit-vectors); "
+            "flag sets keep their names across every permutation/extension of the reader's flag class (solver-"
+            "enumerated); byte round trip, width, rejection of oversize values; extend() keeps old members.",
+            "KERNELS ONLY: numpy dtype strategy selection, None/NaN sentinels, jagged arrays and HDF5 attributes are "
+            "outside (C-level numpy); flag classes with gaps in their bit layout are outside the serializer's domain.",
+            "3 C05"),
+    "C06": ("Snapshot names for all (cycle,node) in [0,100)^2: injective, lexicographic = chronological, parse back, "
+            "labels never change the parsed pair, real genTimeSteps lists exactly the written snapshots in order; "
+            "crash point as a symbolic variable through the real Operator/DatabaseInterface control flow with a "
+            "recording database stub: snapshots written, error snapshot, close flag.",
+            "File CONTENTS (HDF5), history values, split/merge contents are outside; database I/O is a recording stub.",
+            "3 C06"),
     "C07": ("For ALL integer cell indices / ring-position pairs and all pitches (symbolic, unbounded Int/Real): "
             "ring/pos <-> indices are mutual inverses, ring = hex distance + 1, 6(r-1) contiguous positions, six "
             "neighbours one pitch away counter-clockwise in both orientations, coordinates affine in the indices, "
             "bounds-defined base/top/centre, nested-location composition, pitch change, constructor-argument "
             "round trip, labels; minimum-ring count exact for n <= 10^6.",
             "Theta-R-Z trigonometric conversion and labels of negative indices are outside the claim.", "3 C07"),
+    "C08": ("For all integer cells and all pitches: third-core equivalents are the 120/240-degree images of the cell "
+            "centre (sqrt3 algebraic), exactly one orbit member in the modelled third, symmetry-line classification "
+            "matches coordinates, rotateIndex rotates coordinates by k*60 degrees for k in [-13,13], additive, period "
+            "6; quarter-core Cartesian variants; block/assembly rotation moves pins, free coordinates, corner/edge "
+            "data, displacement and orientation.", "Rotation angles are concrete multiples of 60 degrees.", "3 C08"),
+    "C09": ("Binary record byte accounting as an inductive step from an arbitrary symbolic byte count for every "
+            "primitive; complete records of 1..2 fields framed by payload length and read back; ASCII integer and "
+            "string fields over the full int32 range (digit-level symbolic strings); block-band partition for all "
+            "nintj.", "Field values in binary records are concrete (struct is a C boundary); ISOTXS/PMATRX/... bodies "
+            "(scipy sparse) and byte-for-byte fixture rewrites are outside. One recorded known finding (10-digit "
+            "ASCII integers).", "3 C09"),
+    "C10": ("Macroscopic cross sections and energy constants are the density-weighted sums of symbolic microscopic data "
+            "(linear, additive, zero for empty, missing nuclide refused); metadata merge conflict detection.",
+            "Library merge over real nuclide objects and sparse scatter matrices are outside.", "3 C10"),
+    "C11": ("For all source/destination axial meshes within bounds (every interleaving explored as paths): blocks "
+            "between elevations partition the interval, atoms and integrated parameters conserved, averaged = "
+            "height-weighted mean, peak = max; mesh filter and step-function resampling.",
+            "<= 3 x 3 blocks, physical height window, 1e-9 tolerance because armi drops 1e-10 slivers.", "3 C11"),
+    "C12": ("For all block heights and growth factors (and any expansion law): assembly height, contiguity, grid bounds, "
+            "target-component mass conservation, inverse expansion.", "3 blocks + dummy; core-wide mesh management "
+            "outside.", "3 C12"),
+    "C13": ("Third-to-full core conversion and restore, edge assemblies add/remove on a hand-built mini core with "
+            "symbolic parameters and densities: counts, x3 totals, exact restore, lookups.",
+            "2-3 rings, 1 block per assembly.", "3 C13"),
+    "C14": ("After every fuel-handling operation (symbolic choice of operation/operands, K steps) on a mini core: "
+            "lookup tables truthful, inventory conserved (symbolic masses), stationary blocks stay.",
+            "K <= 2-3 steps, 4 locations.", "3 C14"),
+    "C15": ("Cycle/node/step numbering maps mutually inverse for symbolic cycle layouts; step lengths sum to "
+            "availability x cycle length; the real Operator main loop against a reference schedule for symbolic "
+            "interface flags, restart points and coupling convergence patterns.",
+            "<= 3 cycles x 3 steps, <= 3 interfaces; settings I/O and MPI operators outside.", "3 C15"),
+    "C16": ("retainState with every keep-set/assignment/nesting combination (solver-enumerated) and symbolic values "
+            "through pickle; copies independent; serial numbers fresh; read-only refuses assignments.",
+            "Block with 2-3 components, depth 2.", "3 C16"),
+    "C18": ("Lattice-map index arithmetic for all lines/columns/map sizes: (line,col)->(i,j) injective in all four map "
+            "geometries, reader and writer agree, the third-core map draws exactly the cells the grid calls the first "
+            "third, full-core maps reach every cell of the hexagon.",
+            "KERNELS ONLY: YAML parsing, component/block/assembly construction, material modifications are outside.",
+            "3 C18"),
+    "C19": ("Identifier encoders (MCNP, AAAZZZS, name, label, Serpent) injective and decodable for all z<=118, a<=299, "
+            "state<=3 (same-element mass window < 100 witnessed on the table); material expansion/density laws finite "
+            "and positive over the declared temperature range for symbolic T (polynomial laws).",
+            "KERNELS ONLY: table-wide uniqueness over ~4700 rows, abundances, burn chain are finite data checks "
+            "without symbolic content and are outside.", "3 C19"),
+    "C20": ("Label <-> number for every label of 1-2 allowable characters (symbolic characters); representative-block "
+            "densities/temperatures equal the weight-normalised mean over eligible members for all symbolic weights, "
+            "densities and temperatures; burnup/median; environment-group bucketing.",
+            "<= 3 blocks, concrete volumes in the quick tier; LFP averaging outside.", "3 C20"),
 }
+
+# properties whose harness files are complete and green on the unchanged tree
+READY = ["C02", "C04", "C05", "C06", "C07", "C08", "C09", "C18", "C19", "C20"]
 
 NA = {
     "C17": "Settings round trip goes through ruamel.yaml text emission/parsing and voluptuous coercion closures "
@@ -37,7 +122,7 @@ def main():
     na = []
     for p in props:
         pid = p["id"]
-        if pid in CLAIMS and pid in have:
+        if pid in CLAIMS and pid in have and pid in READY:
             text, note, ref = CLAIMS[pid]
             checks.append(dict(
                 property_id=pid,
